@@ -270,7 +270,7 @@ for _op, _n in (("add", "add"), ("sub", "sub"), ("mul", "mul"), ("div", "truediv
 
 
 def to_float(x):
-    if isinstance(x, SymFloat):
+    if isinstance(x, (SymFloat, SymF32)):
         return x
     _to_double_operand_ok(x)
     r, d, _, _ = _lift(x)
@@ -288,12 +288,35 @@ def minmax(is_min, args):
     return res
 
 
+class SymF32(SymFloatBase):
+    """An opaque binary32 value identified by its bit pattern (4 byte terms, little-endian).
+
+    Library axiom (struct 'f', trusted, differentially tested in selftest): for every non-NaN binary32 pattern b,
+    unpack('<f', b) is a Python float x with pack('<f', x) == b, and float(x) is x.  No arithmetic or ordering
+    is defined on SymF32 (Unsupported), so the only facts a proof can use are 'the bytes travel unchanged'."""
+
+    __slots__ = ("bits",)
+
+    def __init__(self, bits):
+        self.bits = list(bits)
+
+    def __repr__(self):
+        return "<symf32>"
+
+    __str__ = __repr__
+
+
 def pack_f32(v, little):
-    raise Unsupported("struct 'f' with a symbolic value")
+    if isinstance(v, SymF32):
+        return list(v.bits) if little else list(reversed(v.bits))
+    raise Unsupported("struct 'f' with a symbolic value that is not a binary32 pattern")
 
 
 def unpack_f32(bs, little):
-    raise Unsupported("struct 'f' on symbolic bytes")
+    bs = list(bs)
+    if len(bs) != 4:
+        raise Unsupported("struct 'f' on a slice that is not 4 bytes")
+    return SymF32(bs if little else list(reversed(bs)))
 
 
 class _Impl:
